@@ -82,7 +82,9 @@ class Ctx:
         return self.fresh(name, sort)
 
     def assume(self, f):
-        from .spec import Forall
+        from .spec import Forall, Using
+        if isinstance(f, Using):
+            f = f.goal
         if isinstance(f, Forall):
             f = f.as_formula()
         if f is True:
@@ -98,7 +100,11 @@ class Ctx:
             self.feas.add(f)
 
     def prove(self, name, goal, node=None, kind="post"):
-        from .spec import Forall
+        from .spec import Forall, Using
+        if isinstance(goal, Using):
+            for f in goal.lemmas:
+                self.assume(f)
+            return self.prove(name, goal.goal, node, kind)
         if isinstance(goal, Forall):
             cs, seeds, body = goal.skolemized(self)
             hyps = list(self.facts)
